@@ -31,6 +31,8 @@ import Pandora.Proofs.C20Feed
 import Pandora.Proofs.C20R4
 import Pandora.Proofs.C20R6
 import Pandora.Bridge.C20
+import Pandora.Gen.GrpcStatus
+import Pandora.Gen.ChosenCases
 
 namespace Pandora.Props.C20
 open Pandora.Model.C20 Pandora.Model.C20Conc Pandora.Proofs.C20Conc Pandora.Proofs.C20Scen Pandora.Spec.C20
@@ -790,5 +792,50 @@ example : ({ passes := 2, limit := 5, chosen := [], coe := true } : ProvCfg).pas
     exRaws.all (rawOk { passes := 2, limit := 5, chosen := [], coe := true }) = true ∧ (∀ i ∈ [2, 0, 1, 2, 0], i < 3) ∧
     ((feedO { passes := 2, limit := 5, chosen := [], coe := true } dirtyObj exRaws).1.map (·.e.tag)) = ["a", "", "b", "a", ""] := by
   decide
+
+/-! ### round 6: compositions with the neighbours' regenerated definitions (read-only imports of C10's and C14's gen areas) -/
+
+/-- **C20_status_documented** (composition with C10's area `grpcstatus` and with the anchored documentation): the code a
+refused call is reported with (`convertStatus`, `C20_status`) is, for EVERY status number, what C10's regenerated
+`ConvertGrpcStatus` (`Gen.GrpcStatus.grpcToHttp`, a function extracted from `components/guns/grpc/core.go`) returns, and the
+model's table is, row by row, the mapping table of `docs/eng/grpc-generator.md` (`Gen.GrpcStatus.docRows`, `docDefault`,
+re-read from the document on every run): code, model and documentation say the same. -/
+theorem C20_status_documented :
+    (∀ f, convertStatus f = Gen.GrpcStatus.grpcToHttp f) ∧
+    statusTable = Gen.GrpcStatus.docRows ∧ statusDefault = Gen.GrpcStatus.docDefault := by
+  refine ⟨?_, rfl, rfl⟩
+  intro f
+  by_cases h : f < 17
+  · revert f
+    decide
+  · unfold convertStatus Gen.GrpcStatus.grpcToHttp statusTable statusDefault
+    have h0 : ∀ k, k < 17 → (k == f) = false := by intro k hk; simp; omega
+    simp [List.find?, h0]
+    repeat rw [if_neg (by omega)]
+
+/-- **C20_chosen_cases** (composition with C14's area `chosencases`): the chosen-cases filter of the grpc/json reading
+loop (`Model.isChosen`, used by `action`, `itemOf` and so by `C20_feed`, `C20_feed_isolated`, `C20_feed_unlimited`,
+`C20_pool_oracle`) IS `confutil.IsChosenCase` as regenerated from `lib/confutil/chosen_cases_filter.go` by symbolic
+execution (`Gen.ChosenCases.isChosenCase`), for every tag and every list: an edit of that helper (a prefix match, a
+case-insensitive match …) re-opens this obligation here too. -/
+theorem C20_chosen_cases (tag : String) (chosen : List String) :
+    isChosen tag chosen = Gen.ChosenCases.isChosenCase tag chosen := by
+  unfold isChosen Gen.ChosenCases.isChosenCase
+  cases chosen with
+  | nil => simp
+  | cons c rest =>
+    simp only [List.isEmpty_cons, Bool.false_or, List.length_cons, Nat.add_one_ne_zero, if_false]
+    induction (c :: rest) with
+    | nil => simp
+    | cons x xs ih =>
+      simp only [List.contains_cons, List.findSome?_cons, Gen.ChosenCases.isChosenCaseStep]
+      by_cases hx : x = tag
+      · subst hx; simp
+      · have : (tag == x) = false := by simp; exact fun h => hx h.symm
+        simp only [hx, this, if_false, Bool.false_or]
+        exact ih
+
+example : isChosen "b" ["a", "b"] = true ∧ isChosen "bb" ["a", "b"] = false ∧ isChosen "x" [] = true ∧
+    Gen.ChosenCases.isChosenCase "bb" ["a", "b"] = false := by decide
 
 end Pandora.Props.C20
